@@ -159,6 +159,9 @@ var vScripts = map[string][]string{
 	// bucket, both at (file 0, offset 20); then the cold file is sealed and collected
 	"hot_cross":  {"set 0 6b 200", "set 0 6b 200", "set 0 61 200", "read", "gcall", "read", "rotate", "flush", "gcall", "read"},
 	"hot_cross3": {"set 0 6b 200", "set 0 61 200", "set 0 6b 200", "set 0 61 200", "set 0 62 200", "set 0 7aff 200", "set 0 6162 200", "read", "gcall", "read", "set 0 6b 200", "set 0 61 33", "gcall", "read"},
+	// GC's rewritten copy and its original (same internal key) end up in two tables of one ingest
+	// buffer; the original's file is removed by the second GC pass (C01-F2 tie: key-range order, not age)
+	"gc_ingest_tie": {"setv 0 6b 7 73 0", "rotate", "flush", "setv 0 61 8 73 0", "gc 0", "read", "rotate", "flush", "gc 0", "read", "compact 0 0 6", "read"},
 	// a zero-length transactional value read through Txn.Get before and after its memtable is flushed
 	"txn_empty": {"txn 61=0", "read", "rotate", "flush", "read"},
 }
